@@ -1,6 +1,7 @@
-"""C13 - Evaluation is colour-symmetric (negation clause by swap-parity reasoning; one mirror clause for the piece-square index).
+"""C13 - Evaluation is colour-symmetric (negation clause by swap-parity reasoning; mirror clause: piece-square index (T1), colour-parametric
+terms (M1), square geometry folded over all squares (M2), colour-symmetric position summary (M3)).
 
-NOT decided: mirror symmetry of the heuristic terms in general (numeric/geometric)."""
+NOT decided: rank-dependent geometry expressed on bitboards, squares handed to functions that cannot be folded."""
 from facts import callee_name
 from terms import TermBuilder, return_term, show, walk, const_value, fold, CannotFold
 from symex import decision_table
@@ -24,14 +25,21 @@ def run(ck):
         "the piece-square table index of a white piece on s equals that of a black piece on the rank-mirrored square for all 64 squares (folded). "
         "M1: the term functions are colour-parametric: apart from the piece-square orientation decided by T1 they mention no colour constant, do not branch on "
         "which colour `perspective` is, and use no colour-direction helper (forward/backward); they are all registered with perspective-independent weights. "
-        "NOT decided: mirror symmetry of the numeric content of the terms (table values, distances).")
-    ck.trusted = ["rustc front end and MIR construction", "extractor decoding", "the term functions read `perspective` only to select the side (their mirror symmetry is not decided)"]
-    ck.not_decided = ["mirror symmetry (flip ranks, swap colours) of the heuristic terms other than the piece-square index mapping"]
+        "M2: rank geometry: for every function in the terms' scope the sub-expressions built from position squares, constants and pure board helpers "
+        "(rank, file, distances, min/max, local closures and helpers) are folded for all assignments of squares (64 or 64x64) and the function's "
+        "behaviour must equal its behaviour on the rank-flipped squares. M3: the position summary (piece counts, colour counts, end-game weight) is "
+        "built by functions whose symbolic behaviour is unchanged when the two colour constants are exchanged. "
+        "NOT decided: rank-dependent geometry expressed on bitboards (rank masks, shifts) rather than on squares; squares handed to functions the "
+        "rules cannot fold (listed per function as opaque uses).")
+    ck.trusted = ["rustc front end and MIR construction", "extractor decoding", "bitboard-level rank geometry inside the terms is mirror-neutral (today: file masks only)"]
+    ck.not_decided = ["mirror symmetry of rank-dependent geometry expressed on bitboards (rank masks, shifts) or behind functions that cannot be folded"]
     ck.run_rule(a1_loop_structure)
     ck.run_rule(a2_operator_parity)
     ck.run_rule(a3_terminal_parity)
     ck.run_rule(t1_piece_square_mirror)
     ck.run_rule(m1_terms_colour_parametric)
+    ck.run_rule(m2_geometry_mirror)
+    ck.run_rule(m3_summary_colour_symmetric)
 
 
 def a1_loop_structure(ck):
@@ -349,3 +357,389 @@ def m1_terms_colour_parametric(ck):
                "%d function(s) in scope, no colour constant / branch / direction helper" % len(scope))
         ck.req(isinstance(w, (int, float)), "M1.weight", fn.split("::")[-2], b.where(), "the term's weight is not a plain number")
     ck.sample({"rule": "M1", "terms": [t[1].split("::")[-2] for t in terms]})
+
+
+# ---------------------------------------------------------------------------------------------------------------
+# M2: rank geometry of the terms is mirror-invariant
+# ---------------------------------------------------------------------------------------------------------------
+BOARD = "weechess_core::board::"
+_SRC0 = 9000
+
+
+class _Ws:
+    """Resolver for fold(): pure workspace functions of the board module are folded through their own decision tables."""
+
+    def __init__(self, prog):
+        self.prog = prog
+        self.models = {}
+
+    def __call__(self, name):
+        last = name.split("::")[-1]
+        if name.startswith("core::cmp::") and last in ("min", "max"):
+            return (lambda a, b: min(a, b)) if last == "min" else (lambda a, b: max(a, b))
+        if name.endswith("From<T>>::from") or name == "core::convert::Into::into":
+            return lambda a: a
+        b = self.prog.bodies.get(name)
+        if b is None or not _pure_fn(self.prog, name):
+            return None
+        is_closure = "{closure" in name.split("::")[-1]
+
+        def run(*args):
+            from evalfn import FnModel
+            if is_closure and len(args) == 2:      # rust-call ABI: (closure, (args,)) ; a 1-tuple folds to its element
+                args = (args[0],) + (tuple(args[1]) if isinstance(args[1], list) and b.arg_count != 2 else (args[1],))
+            if name not in self.models:
+                try:
+                    self.models[name] = FnModel(self.prog, self.prog.raw_body(name), inline_depth=0, calls=self)
+                except Exception as e:       # too many paths, ...
+                    self.models[name] = e
+            m = self.models[name]
+            if isinstance(m, Exception):
+                raise CannotFold("no model of %s: %s" % (name, m))
+            return m(*args)
+        return run
+
+
+def _pure_board_fn(name):
+    return name.startswith(BOARD) or (name.startswith("<" + BOARD) and "fmt::" not in name)
+
+
+_PURE = {}
+
+
+def _pure_fn(prog, name):
+    """Board-module functions, and helpers / closures of the evaluation module that take no `&mut` and return a value (their bodies are folded through
+    their own decision tables; anything they call that cannot be folded makes the enclosing sub-term stay symbolic)."""
+    if _pure_board_fn(name):
+        return True
+    if name not in _PURE:
+        b = prog.bodies.get(name)
+        ok = b is not None and name.startswith(EV) and b.local_ty(0) != "()" and \
+            not any("&mut" in b.local_ty(i) for i in range(1, b.arg_count + 1)) and \
+            not any("Evaluation" in b.local_ty(i) or "StateVariation" in b.local_ty(i) or "State" in b.local_ty(i).split("::")[-1] for i in range(0, b.arg_count + 1))
+        _PURE[name] = ok
+    return _PURE[name]
+
+
+def _transparent(name):
+    """Operators of the score type: their arguments are observed (a different operand is a different score)."""
+    return "eval::Evaluation as core::ops::" in name
+
+
+def _sq_sources(prog, terms):
+    """Non-constant terms handed to a Square-typed parameter of a board-module function and not produced by one."""
+    out = []
+    for t in terms:
+        for x in walk(t):
+            if x[0] != "call" or not _pure_fn(prog, x[1]):
+                continue
+            b = prog.bodies.get(x[1])
+            if b is None:
+                continue
+            for i, a in enumerate(x[2]):
+                if i >= b.arg_count or not b.local_ty(i + 1).endswith("board::Square"):
+                    continue
+                if a[0] == "const" or (a[0] == "call" and _pure_fn(prog, a[1])):
+                    continue
+                if a not in out:
+                    out.append(a)
+    return out
+
+
+def _replace(t, mapping):
+    if not isinstance(t, tuple) or not t:
+        return t
+    if t in mapping:
+        return mapping[t]
+    if t[0] == "const":
+        return t
+    return tuple(_replace(x, mapping) if isinstance(x, tuple) else x for x in t)
+
+
+def _closed(t, prog=None):
+    """(closed, has_source): every leaf is a constant or a square source and every call is a pure board / core::num / core::cmp helper."""
+    k = t[0]
+    if k == "param":
+        return (t[1] >= _SRC0, t[1] >= _SRC0)
+    if k == "const":
+        return (True, False)
+    if k in ("undef", "var", "opaque", "fn", "icall", "upd", "setdiscr", "repeat", "proj"):
+        return (False, False)
+    if k == "call":
+        pure = (_pure_fn(prog, t[1]) if prog is not None else _pure_board_fn(t[1])) or t[1].startswith("core::num::") or (t[1].startswith("core::cmp::") and t[1].split("::")[-1] in ("min", "max")) \
+            or t[1].endswith("From<T>>::from") or t[1] == "core::convert::Into::into"
+        if not pure:
+            return (False, False)
+        kids = t[2]
+    else:
+        kids = [x for x in t[1:] if isinstance(x, tuple) and x and isinstance(x[0], str)]
+        if k == "agg":
+            kids = list(t[2])
+    has = False
+    for x in kids:
+        c, h = _closed(x, prog)
+        if not c:
+            return (False, False)
+        has = has or h
+    return (True, has)
+
+
+def _residual(t, env, ws, cache, stats):
+    """Term with every maximal closed sub-term that mentions a square source replaced by its folded value."""
+    if not isinstance(t, tuple) or not t or t[0] == "const":
+        return t
+    if not isinstance(t[0], str):      # an argument list
+        return tuple(_residual(x, env, ws, cache, stats) if isinstance(x, tuple) else x for x in t)
+    c, h = _closed(t, ws.prog)
+    if c and h:
+        key = (t, tuple(sorted(env.items())))
+        if key not in cache:
+            try:
+                v = fold(t, env, ws)
+                cache[key] = ("val", repr(v))
+                stats["folded"].add(t)
+            except CannotFold as e:
+                cache[key] = None
+                stats["unfolded"][t] = str(e)
+        if cache[key] is not None:
+            return cache[key]
+        return t
+    if c:
+        return t
+    if t[0] in ("call", "icall") and not (t[0] == "call" and _transparent(t[1])):
+        # an opaque call: what it does with a square is unknown, its arguments stay symbolic (same on both sides of the comparison)
+        if any(_closed(a, ws.prog) == (True, True) or _mentions_source(a) for a in (t[2] if isinstance(t[2], tuple) else ())):
+            stats["opaque"].add(t[1] if t[0] == "call" else "indirect call")
+        return t
+    return tuple(_residual(x, env, ws, cache, stats) if isinstance(x, tuple) else x for x in t)
+
+
+def _mentions_source(t):
+    return any(x[0] == "param" and x[1] >= _SRC0 for x in walk(t))
+
+
+def m2_geometry_mirror(ck):
+    """Mirror clause, rank geometry: the squares a term reads come from the position (king squares, pieces), so in the mirrored position with the
+    colours swapped every such square is the rank-flipped one.  For every function in the terms' scope (except the piece-square lookup, T1) the symbolic
+    paths are enumerated; every sub-expression built only from those squares, constants and pure board helpers (rank, file, distances, min/max, ...)
+    is folded for all assignments of squares, and the function's behaviour (which paths are feasible, what they add to the score) must be the same
+    for an assignment and for its rank-flipped image.  Everything else (counts, weights, occupancy) stays symbolic and is covered by M1."""
+    prog = ck.prog
+    from symex import SymEx, TooManyPaths
+    from callgraph import CallGraph
+    table = ck.const(EV + "EVALUATORS", "M2")
+    fns = [x["$fn"] for row in table for x in row if isinstance(x, dict) and "$fn" in x]
+    cg = CallGraph(prog)
+    ORIENTED = EV + "evaluate_piece_squares::evaluate_piece_square"
+    seen, _e, _i = cg.reachable(fns)
+    scope = sorted(n for n in seen if n.startswith(EV) and n != ORIENTED and not n.startswith(ORIENTED + "::"))
+    ws = _Ws(prog)
+    # the flip, from the repo's own rank()/file()
+    try:
+        rk, fl = ws(BOARD + "Square::rank"), ws(BOARD + "Square::file")
+        coords = {s: (rk(s), fl(s)) for s in range(64)}
+    except (CannotFold, TypeError) as e:
+        ck.fail("M2.coords", "Square::rank/file", "", "cannot fold Square::rank / Square::file: %s" % e)
+        return
+    inv = {v: k for k, v in coords.items()}
+    flip = {s: inv.get((7 - coords[s][0], coords[s][1])) for s in range(64)}
+    if len(inv) != 64 or any(v is None for v in flip.values()):
+        ck.fail("M2.coords", "Square::rank/file", "", "rank()/file() do not give 64 distinct coordinates")
+        return
+    n_folded = 0
+    n_assign = 0
+    judged = []
+    for n in scope:
+        body = prog.raw_body(n)
+        try:
+            paths = SymEx(prog, body, inline_depth=0, max_paths=3000).run()
+        except TooManyPaths:
+            ck.note("M2: %s has too many paths, geometry not judged" % n) if hasattr(ck, "note") else None
+            continue
+        allterms = []
+        for p in paths:
+            allterms += [c for c, _ in p.conds] + [p.ret]
+            for e in p.effects:
+                if e[0] in ("call", "icall"):
+                    allterms += list(e[2])
+                elif e[0] == "store":
+                    allterms += [e[1], e[2]]
+        srcs = _sq_sources(prog, allterms)
+        if not srcs:
+            continue
+        mapping = {s: ("param", _SRC0 + i) for i, s in enumerate(srcs)}
+        # observables per path with sources replaced
+        obs = []
+        for p in paths:
+            conds = [(_replace(c, mapping), tk) for c, tk in p.conds]
+            effs = []
+            for e in p.effects:
+                if e[0] == "call":
+                    t = _replace(("call", e[1], e[2]), mapping)
+                    if _closed(t, prog)[0]:
+                        continue          # pure geometry step: only its uses matter
+                    effs.append(t)
+                elif e[0] == "icall":
+                    effs.append(_replace(("icall", e[1], e[2]), mapping))
+                elif e[0] == "store":
+                    effs.append(("store", _replace(e[1], mapping), _replace(e[2], mapping)))
+            obs.append((conds, effs, _replace(p.ret, mapping)))
+        k = len(srcs)
+        where = body.where()
+        short = "::".join(n.split("::")[-2:])
+        if k > 2:
+            ck.fail("M2.sources", short, where, "%d different squares feed the geometry of this function; the exhaustive comparison handles at most 2" % k)
+            continue
+        cache = {}
+        stats = {"folded": set(), "unfolded": {}, "opaque": set()}
+
+        def behaviour(sigma):
+            env = {_SRC0 + i: v for i, v in enumerate(sigma)}
+            out = set()
+            for conds, effs, ret in obs:
+                rc = []
+                feasible = True
+                for c, tk in conds:
+                    r = _residual(c, env, ws, cache, stats)
+                    if r[0] == "val":
+                        v = eval(r[1], {"__builtins__": {}}, {})
+                        if isinstance(v, bool):
+                            v = int(v)
+                        if v is None:
+                            v = 0
+                        elif isinstance(v, tuple) and v and v[0] == "Some":
+                            v = 1
+                        if isinstance(tk, tuple):
+                            if v in tk[1]:
+                                feasible = False
+                                break
+                        elif v != tk:
+                            feasible = False
+                            break
+                    else:
+                        rc.append((r, tk))
+                if not feasible:
+                    continue
+                out.add((tuple(rc), tuple(_residual(e, env, ws, cache, stats) for e in effs), _residual(ret, env, ws, cache, stats)))
+            return frozenset(out)
+        import itertools
+        bad = None
+        for sigma in itertools.product(range(64), repeat=k):
+            n_assign += 1
+            a = behaviour(sigma)
+            b_ = behaviour(tuple(flip[s] for s in sigma))
+            if a != b_:
+                diff = sorted(a ^ b_, key=repr)
+                bad = (sigma, diff[0])
+                break
+        n_folded += len(stats["folded"])
+        judged.append({"function": short, "squares": k, "paths": len(paths), "folded_subterms": len(stats["folded"]), "unfolded_subterms": len(stats["unfolded"]),
+                       "opaque_uses_of_squares": sorted(stats["opaque"])})
+        for t, why in sorted(stats["unfolded"].items(), key=repr)[:3]:
+            ck.extra.setdefault("M2_unfolded", []).append({"function": short, "term": show(t)[:120], "why": why[:120]})
+        names = "abcdefgh"
+        sqn = lambda s: "%s%d" % (names[coords[s][1]], coords[s][0] + 1)
+        ck.req(bad is None, "M2.geometry_mirror", short, where,
+               "the term's geometry is not invariant under the rank flip: with its square(s) on %s it behaves differently than with them on %s (%s)" % (
+                   [sqn(s) for s in bad[0]] if bad else "", [sqn(flip[s]) for s in bad[0]] if bad else "", show(bad[1][1][-1] if bad and bad[1][1] else ("const", None, None))[:140] if bad else ""),
+               "%d square assignment(s) x %d path(s); %d geometric sub-term(s) folded" % (64 ** k, len(paths), len(stats["folded"])))
+    ck.floor("M2", n_folded, 1, "geometric sub-terms folded in the terms' scope")
+    ck.extra["M2_judged"] = judged
+    ck.extra["M2_assignments"] = n_assign
+
+
+# ---------------------------------------------------------------------------------------------------------------
+# M3: the position summary the terms read is colour-symmetric
+# ---------------------------------------------------------------------------------------------------------------
+_COMM = ("Add", "Mul", "BitAnd", "BitOr", "BitXor", "Eq", "Ne", "AddUnchecked", "MulUnchecked")
+_COMM_TRAITS = ("arith::Add>::add", "arith::Mul>::mul", "bit::BitOr>::bitor", "bit::BitAnd>::bitand", "bit::BitXor>::bitxor")
+
+
+def _colour_token(x, colour_names):
+    if x[0] == "agg" and "color::Color::" in str(x[1]) and x[1].split("::")[-1] in colour_names and not x[2]:
+        return x[1].split("::")[-1]
+    if x[0] == "const":
+        from terms import thaw
+        raw = thaw(x[2])
+        while isinstance(raw, dict) and "$ref" in raw and len(raw) == 1:
+            raw = raw["$ref"]
+        if isinstance(raw, dict) and str(raw.get("$ty", "")).endswith("color::Color") and variant_name(x) in colour_names:
+            return variant_name(x)
+    return None
+
+
+def _swap_norm(t, colour_names, swap):
+    """Term with colour constants replaced by tokens (swapped if asked) and operands of commutative operators sorted."""
+    if not isinstance(t, tuple) or not t:
+        return t
+    if not isinstance(t[0], str):
+        return tuple(_swap_norm(x, colour_names, swap) for x in t)
+    tok = _colour_token(t, colour_names)
+    if tok is not None:
+        if swap:
+            others = sorted(colour_names - {tok})
+            tok = others[0] if len(others) == 1 else tok
+        return ("colour", tok)
+    if t[0] == "const":
+        return t
+    out = tuple(_swap_norm(x, colour_names, swap) if isinstance(x, tuple) else x for x in t)
+    if out[0] == "bin" and out[1] in _COMM:
+        a, b = sorted([out[2], out[3]], key=repr)
+        out = out[:2] + (a, b) + out[4:]
+    if out[0] == "call" and any(out[1].endswith(k) for k in _COMM_TRAITS) and len(out[2]) == 2:
+        out = out[:2] + (tuple(sorted(out[2], key=repr)),) + out[3:]
+    return out
+
+
+def m3_summary_colour_symmetric(ck):
+    """Mirror clause, position summary: the data every term reads besides the board (piece counts, colour counts, end-game weight) is computed
+    once per position, without a perspective.  Swapping the colours of a position must leave the colour-independent parts unchanged, so a function of
+    the summary's construction that names a colour constant must name the other one in the same role: its symbolic behaviour (path conditions, stores,
+    calls and result) is required to be the same after exchanging the two constants, up to the order of operands of commutative operators."""
+    prog = ck.prog
+    from symex import SymEx, TooManyPaths
+    from callgraph import CallGraph
+    cadt = ck.adt("weechess_core::color::Color", "M3")
+    colour_names = {v["name"] for v in cadt["variants"]}
+    root = [n for n in prog.bodies if n.startswith("<" + EV + "StateVariation<") and "convert::From<" in n and n.endswith(">::from")]
+    if len(root) != 1:
+        ck.missing("M3", "the constructor of the position summary (From<&State> for StateVariation), found %d" % len(root))
+        return
+    cg = CallGraph(prog)
+    seen, _e, _i = cg.reachable(root)
+    scope = sorted(n for n in seen if n.startswith(EV) or n.startswith("<" + EV))
+    n_named = 0
+    for n in scope:
+        body = prog.raw_body(n)
+        try:
+            paths = SymEx(prog, body, inline_depth=0, max_paths=3000).run()
+        except TooManyPaths:
+            continue
+
+        def sig(swap):
+            out = set()
+            for p in paths:
+                effs = []
+                for e in p.effects:
+                    if e[0] == "call":
+                        effs.append(("call", e[1], e[2]))
+                    elif e[0] == "icall":
+                        effs.append(("icall", e[1], e[2]))
+                    elif e[0] == "store":
+                        effs.append(("store", e[1], e[2]))
+                out.add((_swap_norm(tuple(p.conds), colour_names, swap), tuple(sorted((_swap_norm(e, colour_names, swap) for e in effs), key=repr)),
+                         _swap_norm(p.ret, colour_names, swap)))
+            return out
+        a = sig(False)
+        names = any(x[0] == "colour" for s_ in a for x in walk(s_) if isinstance(x, tuple) and x)
+        if not names:
+            continue
+        n_named += 1
+        b_ = sig(True)
+        diff = sorted(a ^ b_, key=repr)
+        short = n.split("::")[-1] if "{closure" in n else "StateVariation::from"
+        ck.req(not diff, "M3.summary_symmetric", short, body.where(),
+               "the position summary treats the colours differently: exchanging White and Black changes what this function computes (%s)" % (
+                   show(diff[0][2])[:160] if diff else ""), "%d path(s) compared with their colour-exchanged image" % len(paths))
+    ck.extra["M3_scope"] = [n.split("::")[-1] for n in scope]
+    ck.extra["M3_functions_naming_a_colour"] = n_named
